@@ -26,7 +26,18 @@ fn main() {
         let t = bvh::guarded(std::panic::AssertUnwindSafe(|| {
             let mut ctx = bvh::new_context(bvh::Limits::default());
             boa_gc::verif::set_stress(stress);
-            let t = bvh::eval_in(&mut ctx, &src);
+            let mut t = bvh::eval_in(&mut ctx, &src);
+            // further host turns: collect, drain the job queue (a failing job must not stop the host from trying again),
+            // then let the script report through `__final`
+            if src.windows(7).any(|w| w == b"__final") {
+                for _ in 0..6 {
+                    boa_gc::force_collect();
+                    let _ = ctx.run_jobs();
+                }
+                let r = ctx.eval(boa_engine::Source::from_bytes(b"__final();"));
+                if let Err(e) = r { t.detail = format!("final: {e}"); }
+                t.out.extend(bvh::take_out());
+            }
             boa_gc::verif::set_stress(false);
             drop(ctx);
             t
